@@ -9,6 +9,7 @@ mod driver;
 mod evalrun;
 mod gen;
 mod rs;
+mod sched;
 mod serval;
 mod streams;
 mod syntax;
@@ -199,6 +200,7 @@ fn main() {
         }
         "C14" => syntax::run_c14(&mut rep, &o.driver, o.workers, o.tier == "thorough", o.seed),
         "C16" => syntax::run_c16(&mut rep, &o.driver, o.workers, o.tier == "thorough", o.seed),
+        "C12" => sched::run(&mut rep, &o.driver, o.workers, o.tier == "thorough", o.seed),
         "C13" => serval::run(&mut rep, &o.driver, o.workers, o.tier == "thorough", o.seed),
         "C15" => builder::run(&mut rep, &o.driver, o.workers, o.tier == "thorough", o.seed),
         "C17" => conv::run(&mut rep, &o.driver, o.workers, o.tier == "thorough", o.seed),
